@@ -320,6 +320,46 @@ Definition wf_dbody (b : cdbody) : bool :=
   end.
 Definition wf_dbl (d : cdbl) : bool := wf_dbody (cd_body d).
 
+(* ---------- where a word or a number ends ----------
+   What the grammar demands of the text k that directly follows a token: that it does not continue the token.  For words
+   this is one byte of look-ahead; for numbers it is the longest-match rule of the number syntax, spelled out here
+   byte by byte (independently of the parser):  digits continue a digit run; "0" followed by 'x' and hexadecimal
+   digits (value within i64) is a hexadecimal constant; digits followed by '.', or by e / E and an integer constant
+   (value within i64 -- an exponent that overflows is not an exponent), are a double. *)
+Definition hd_is (f : byte -> bool) (k : list byte) : bool := match k with b :: _ => f b | [] => false end.
+Fixpoint run (f : byte -> bool) (k : list byte) : list byte :=
+  match k with b :: k' => if f b then b :: run f k' else [] | [] => [] end.
+Fixpoint skip_minus (k : list byte) : list byte :=
+  match k with b :: k' => if Byte.eqb b x2d then skip_minus k' else k | [] => [] end.
+Definition wordch (b : byte) : bool := is_alnum b || is_underscore b.
+(* an integer constant can be read at the beginning of k:  '-'* digits, the decimal value within i64 ("0x.." begins
+   with the digit 0) *)
+Definition int_starts (k : list byte) : bool :=
+  let ds := run is_digit (skip_minus k) in negb (is_nil ds) && (digits_value 10 ds <=? 9223372036854775807).
+(* k begins with an exponent *)
+Definition exp_starts (k : list byte) : bool :=
+  match k with b :: k' => (Byte.eqb b x65 || Byte.eqb b x45) && int_starts k' | [] => false end.
+(* after the single digit 0: 'x' and hexadecimal digits whose value is within i64 *)
+Definition hex_continues (k : list byte) : bool :=
+  match k with
+  | b :: k' => Byte.eqb b x78 && (let hs := run is_hexdigit k' in negb (is_nil hs) && (digits_value 16 hs <=? 9223372036854775807))
+  | [] => false
+  end.
+Definition is_zero (ds : list byte) : bool := match ds with [b] => Byte.eqb b x30 | _ => false end.
+(* the integer constant i ends where k begins *)
+Definition int_stops (i : cint) (k : list byte) : bool :=
+  if ci_hex i then negb (hd_is is_hexdigit k)
+  else negb (hd_is is_digit k) && negb (is_zero (ci_digits i) && hex_continues k).
+(* in a position where a double is tried first: [-] digits followed by '.' or an exponent is a double *)
+Definition int_not_double (i : cint) (k : list byte) : bool :=
+  ci_hex i || Nat.leb 2 (ci_minus i) || negb (hd_is (fun b => Byte.eqb b x2e) k || exp_starts k).
+(* the double constant d ends where k begins *)
+Definition dbl_stops (d : cdbl) (k : list byte) : bool :=
+  match cd_body d with
+  | DBodyA _ _ None | DBodyB _ None => negb (hd_is is_digit k) && negb (exp_starts k)
+  | DBodyA _ _ (Some e) | DBodyB _ (Some e) | DBodyC _ e => int_stops (ce_int e) k
+  end.
+
 (* ---------- constant values ---------- *)
 Inductive cconst :=
 | CCLit (l : clit)
@@ -391,15 +431,22 @@ Definition clist_starts_dot (l : clist) : bool := match l with CLNil => false | 
 Definition cmapl_starts_word (l : cmapl) : bool := match l with CMNil => false | CMCons k _ _ _ _ _ _ => const_starts_word k end.
 Definition cmapl_starts_dot (l : cmapl) : bool := match l with CMNil => false | CMCons k _ _ _ _ _ _ => const_starts_dot k end.
 
-(* what the grammar demands between a value and the next one when no separator is written: a value that ends with a
-   word or a number is set off by a blank from a following word, number or '.', and a path is not followed, even
-   after a blank, by a '.' (which would continue the path) *)
 Definition const_is_path (v : cconst) : bool := match v with CCPath _ => true | _ => false end.
-Definition glue_ok (v : cconst) (b : blank) (s : csep) (next_word next_dot : bool) : bool :=
-  match s with
-  | SepSome _ _ => true
-  | SepNone =>
-    negb (const_ends_word v && is_nil b && (next_word || next_dot)) && negb (const_is_path v && next_dot)
+(* the value v ends where the text k begins: k does not continue its last token.  (true.5 is the word true and the double
+   .5; a.5 is the path a and the double .5, because a path segment does not begin with a digit) *)
+Definition cont_ok (v : cconst) (k : list byte) : bool :=
+  match v with
+  | CCBool _ | CCPath _ => negb (hd_is wordch k)
+  | CCDbl d => dbl_stops d k
+  | CCInt i => int_stops i k && int_not_double i k
+  | _ => true
+  end.
+(* what the grammar demands between a value and the text nx of the following values when neither a blank nor a separator
+   is written *)
+Definition glue_ok (v : cconst) (b : blank) (s : csep) (nx : list byte) : bool :=
+  match s, b with
+  | SepNone, [] => cont_ok v nx
+  | _, _ => true
   end.
 
 Fixpoint wf_const (v : cconst) : bool :=
@@ -416,14 +463,14 @@ with wf_clist (l : clist) : bool :=
   match l with
   | CLNil => true
   | CLCons v b s rest =>
-    wf_const v && wf_blank b && wf_sep s && glue_ok v b s (clist_starts_word rest) (clist_starts_dot rest) && wf_clist rest
+    wf_const v && wf_blank b && wf_sep s && glue_ok v b s (pr_clist rest []) && wf_clist rest
   end
 with wf_cmapl (l : cmapl) : bool :=
   match l with
   | CMNil => true
   | CMCons key b1 b2 v b3 s rest =>
     wf_const key && wf_blank b1 && wf_blank b2 && wf_const v && wf_blank b3 && wf_sep s &&
-    glue_ok v b3 s (cmapl_starts_word rest) (cmapl_starts_dot rest) && wf_cmapl rest
+    glue_ok v b3 s (pr_cmapl rest []) && wf_cmapl rest
   end.
 
 (* ---------- optional pieces shared by the declarations ---------- *)
@@ -572,10 +619,14 @@ Definition enumval_ends_word (e : cenumval) : bool :=
   match ev_val e with Some (_, _, b2) => is_nil b2 | None => is_nil (ev_b1 e) end.
 Fixpoint pr_enumvals (l : list cenumval) (k : list byte) : list byte :=
   match l with [] => k | e :: l' => pr_enumval e (pr_enumvals l' k) end.
+(* a value whose text ends with its name or its number is directly followed by the name nx of the next value only if
+   the number ends there (A=5B is A=5 and B; a name cannot be followed directly by a name) *)
+Definition enumval_glue (e : cenumval) (nx : list byte) : bool :=
+  negb (enumval_ends_word e) || match ev_val e with Some (_, i, _) => int_stops i nx | None => false end.
 Fixpoint wf_enumvals (l : list cenumval) : bool :=
   match l with
   | [] => true
-  | e :: l' => wf_enumval e && (is_nil l' || negb (enumval_ends_word e)) && wf_enumvals l'
+  | e :: l' => wf_enumval e && match l' with [] => true | e' :: _ => enumval_glue e (ev_cname e') end && wf_enumvals l'
   end.
 Record cenum := mkCEnum { ce_b1 : blank; ce_name : Ident; ce_b2 : blank; ce_b0 : blank; ce_vals : list cenumval;
                           ce_b3 : blank; ce_anns : option (list cann) }.
@@ -759,6 +810,18 @@ Definition item_ends_word (it : citem) : bool :=
   | _ => false
   end.
 
+(* the keyword an item begins with *)
+Definition item_word (it : citem) : list byte :=
+  match it with
+  | CIInclude _ _ _ => txt "include" | CICppInclude _ _ _ => txt "cpp_include" | CINamespace _ => txt "namespace"
+  | CITypedef _ => txt "typedef" | CIConst _ => txt "const" | CIEnum _ => txt "enum" | CIStruct kind _ _ => skind_kw kind
+  | CIService _ => txt "service"
+  end.
+(* an item whose text ends with a word or a number is directly followed by the keyword nx of the next item only if it is
+   a constant whose value ends there (const i8 c = 5struct S{} is two items; a name would swallow the keyword) *)
+Definition item_glue (it : citem) (nx : list byte) : bool :=
+  negb (item_ends_word it) || match it with CIConst c => cont_ok (ck_val c) nx | _ => false end.
+
 (* a file:  [blank] (item [blank])*  -- the blank after an item is a slot of its own only if the item does not end in a
    blank slot; an item that ends with a word is set off from the next item; the last blank of the text (the leading blank,
    if the document has no items) may end with an unterminated line comment. *)
@@ -780,6 +843,6 @@ Fixpoint wf_items (l : list (citem * blank)) : bool :=
   | [] => true
   | (it, b) :: l' =>
     wf_item (is_nil l' && is_nil b) it && wfb (is_nil l') b && (negb (item_open it) || is_nil b) &&
-    (is_nil l' || negb (item_ends_word it && is_nil b)) && wf_items l'
+    match l' with [] => true | (it', _) :: _ => negb (is_nil b) || item_glue it (item_word it') end && wf_items l'
   end.
 Definition wf_file (c : cfile) : bool := wfb (is_nil (fl_items c)) (fl_b0 c) && wf_items (fl_items c).
